@@ -170,4 +170,13 @@ def parsedOf (f : LctFields) : LctHeader :=
     closeObject := decide (f.b = 1), closeSession := decide (f.a = 1),
     headerExtOffset := 4 * (1 + (f.c + 1) + (f.s + f.o + f.h)) }
 
+/-- a header with non-minimal widths (TSI 5 in 48 bits, TOI 7 in 80 bits, CCI in 64 bits), an unknown
+    variable-length extension of 64 words (HEL = 64, the first value the 8-bit shift wrapped on before D7 was
+    repaired), an unknown fixed-length one and EXT_CENC -/
+def sampleHeader : LctFields :=
+  { c := 1, psi := 0, s := 1, o := 2, h := 1, a := 0, b := 1, cp := 0, cci := 9, tsi := 5, toi := 7,
+    exts := [{ het := 65, hel := 64, body := List.replicate 254 0xAB }, { het := 200, hel := 0, body := [1, 2, 3] },
+             { het := 193, hel := 0, body := [2, 0, 0] }] }
+
+
 end Flute.Lct
